@@ -111,24 +111,33 @@ func readJSON(path string, v any) error {
 	return json.Unmarshal(b, v)
 }
 
-const childTimeout = 120 * time.Second
+const childTimeout = 300 * time.Second
 
-// runChild runs a child with retries on watchdog timeouts.
-func runChild(r *evid.Run, spec *childSpec, name string) (evid.ChildResult, bool) {
+// runChildOnce runs a child once under the watchdog.
+func runChildOnce(r *evid.Run, spec *childSpec, name string) (evid.ChildResult, bool) {
 	specFile := filepath.Join(spec.Tmp, name+".spec.json")
 	if err := writeJSON(specFile, spec); err != nil {
 		r.Inconclusive("cannot write child spec: %v", err)
 		return evid.ChildResult{}, false
 	}
+	return evid.Child([]string{"-child", "-spec", specFile}, nil, childTimeout), true
+}
+
+// runChild runs a child that starts from an empty database directory, with
+// retries (from scratch) when the watchdog fires. A recovering child is never
+// retried on the directory it has already touched: see runCase.
+func runChild(r *evid.Run, spec *childSpec, name string) (evid.ChildResult, bool) {
 	var res evid.ChildResult
 	for attempt := 0; attempt < 3; attempt++ {
-		res = evid.Child([]string{"-child", "-spec", specFile}, nil, childTimeout)
+		var ok bool
+		if res, ok = runChildOnce(r, spec, name); !ok {
+			return res, false
+		}
 		if !res.TimedOut {
 			return res, true
 		}
-		if spec.Mode != "recover" {
-			_ = os.RemoveAll(spec.Dir)
-		}
+		r.Count("watchdog.child_timeouts."+spec.Mode, 1)
+		_ = os.RemoveAll(spec.Dir)
 	}
 	r.Inconclusive("child %s (%s) timed out three times", name, spec.Mode)
 	return res, false
@@ -323,20 +332,47 @@ func runCase(r *evid.Run, st *caseStats, scratch, name string, h *ndblab.History
 			Layer: layer, Detail: detail, Ops: h.OpStrings(), History: h}
 	}
 	r.Eval(1)
-	if prepared == nil {
-		spec := &childSpec{Mode: "crash", Backend: backend, Dir: dir, Tmp: tmp, History: h, Hashes: ref.Hashes, Classes: ref.Classes, UpTo: ref.UpTo,
-			Op: cp.Op, Point: cp.Point, Hit: cp.Hit, Out: filepath.Join(tmp, "crash.json")}
-		res, ok := runChild(r, spec, "crash")
-		if !ok {
+	var res evid.ChildResult
+	var spec *childSpec
+	for attempt := 0; ; attempt++ {
+		if attempt == 3 {
+			r.Inconclusive("%s/%s op %d: the recovering child timed out three times", backend, h.Name, cp.Op)
 			return
 		}
-		if res.Signal != syscall.SIGKILL {
-			r.Count("cases.crash_point_not_reached", 1)
-			r.Inconclusive("%s/%s op %d %s: child A did not die at %s hit %d (exit %d): %s", backend, h.Name, cp.Op, h.Ops[cp.Op].String(), cp.Point, cp.Hit, res.ExitCode, tail(res.Out))
+		if prepared == nil {
+			_ = os.RemoveAll(dir)
+			cspec := &childSpec{Mode: "crash", Backend: backend, Dir: dir, Tmp: tmp, History: h, Hashes: ref.Hashes, Classes: ref.Classes, UpTo: ref.UpTo,
+				Op: cp.Op, Point: cp.Point, Hit: cp.Hit, Out: filepath.Join(tmp, "crash.json")}
+			cres, ok := runChild(r, cspec, "crash")
+			if !ok {
+				return
+			}
+			if cres.Signal != syscall.SIGKILL {
+				r.Count("cases.crash_point_not_reached", 1)
+				r.Inconclusive("%s/%s op %d %s: child A did not die at %s hit %d (exit %d): %s", backend, h.Name, cp.Op, h.Ops[cp.Op].String(), cp.Point, cp.Hit, cres.ExitCode, tail(cres.Out))
+				return
+			}
+		} else {
+			dir = *prepared
+		}
+		spec = &childSpec{Mode: "recover", Backend: backend, Dir: dir, Tmp: tmp, History: h, Hashes: ref.Hashes, Classes: ref.Classes, UpTo: ref.UpTo,
+			Op: cp.Op, Point: cp.Point, Hit: cp.Hit, Final: ref.Final, Out: filepath.Join(tmp, "recover.json")}
+		_ = os.Remove(spec.Out)
+		var ok bool
+		if res, ok = runChildOnce(r, spec, "recover"); !ok {
 			return
 		}
-	} else {
-		dir = *prepared
+		if !res.TimedOut {
+			break
+		}
+		// The watchdog fired while the recovering child was working on the directory: the
+		// directory is no longer the state left by the crash, so the whole case starts over
+		// (a parent-killed directory of the randomised layer cannot be reproduced: skipped).
+		r.Count("watchdog.child_timeouts.recover", 1)
+		if prepared != nil {
+			r.Count("random.skipped_after_recover_timeout", 1)
+			return
+		}
 	}
 	r.Count("cases.child_died_by_sigkill", 1)
 	r.Count("cases.layer."+layer, 1)
@@ -346,13 +382,6 @@ func runCase(r *evid.Run, st *caseStats, scratch, name string, h *ndblab.History
 		st.points[cp.Point]++
 		st.mu.Unlock()
 	}
-
-	spec := &childSpec{Mode: "recover", Backend: backend, Dir: dir, Tmp: tmp, History: h, Hashes: ref.Hashes, Classes: ref.Classes, UpTo: ref.UpTo,
-		Op: cp.Op, Point: cp.Point, Hit: cp.Hit, Final: ref.Final, Out: filepath.Join(tmp, "recover.json")}
-	res, ok := runChild(r, spec, "recover")
-	if !ok {
-		return
-	}
 	var out recoverResult
 	if err := readJSON(spec.Out, &out); err != nil {
 		// The recovering child itself died (panic / fatal error in the code under test).
@@ -361,6 +390,8 @@ func runCase(r *evid.Run, st *caseStats, scratch, name string, h *ndblab.History
 			wit(map[string]any{"output": tail(res.Out)}))
 		return
 	}
+	r.Sample(map[string]any{"backend": backend, "history": h.Name, "op": fmt.Sprintf("%d:%s", cp.Op, h.Ops[cp.Op].String()), "point": cp.Point, "hit": cp.Hit,
+		"layer": layer, "child_a": "died by SIGKILL", "reopened": out.Reopened, "target_after_reopen": out.Applied, "findings": len(out.Findings)})
 	r.Count("recover.reads", out.Reads)
 	r.Count("recover.target_"+out.Applied, 1)
 	if out.Reopened {
